@@ -576,6 +576,7 @@ def _mutants():
     F = "_feats.py"
     C = "command_line.py"
     return [
+        M("lobe-reaches-past-the-segments", "_feats.py", "offs = min((int(do_left) + int(do_right)) * lobe_size, NN)", "offs = (int(do_left) + int(do_right)) * lobe_size", "slice-stops-cannot-go-negative"),
         M("repaired:boundaries-relative-to-slice-start", "_feats.py", "chunked[..., 1:] += slices[..., 0].view(N, 1, 1).expand(N, R, 2)", "chunked[..., 1:] -= slices[..., 0].view(N, 1, 1).expand(N, R, 2)", "", twin=True),
         M("gather-after-indexing-away", F, ".gather(1, (in_lens - 1).clamp_min_(0).view(N, 1))", ".select(1, 0).gather(1, (in_lens - 1).clamp_min_(0).view(N, 1))",
           "dimension-within-known-rank"),
